@@ -33,6 +33,10 @@ type TOp struct {
 	Delta    int64  `json:"delta,omitempty"`
 	FaultGet bool   `json:"fault_get,omitempty"`
 	FaultPut bool   `json:"fault_put,omitempty"`
+	// StaleTmp: before this step a leftover temporary file of an interrupted checkpoint (arbitrary
+	// content) lies next to the ticket file, as after a crash between its creation and the rename.
+	// The history must behave exactly as without it.
+	StaleTmp bool `json:"stale_tmp,omitempty"`
 }
 
 func (o TOp) String() string {
@@ -43,6 +47,9 @@ func (o TOp) String() string {
 		return fmt.Sprintf("%s(%d,%d)", o.Op, o.Addr, o.Delta)
 	}
 	f := ""
+	if o.StaleTmp {
+		f += "~tmp"
+	}
 	if o.FaultGet {
 		f += "!get"
 	}
@@ -83,7 +90,6 @@ func (w *writeFault) clear() {
 	if w.saved {
 		must(os.Rename(w.file+".aside", w.file))
 	}
-	os.Remove(w.file + ".tmp")
 	w.armed, w.saved = false, false
 }
 
@@ -99,6 +105,10 @@ func (e *env) ticketCases() {
 		{{Op: "issue", Addr: 0}, {Op: "agefile", Addr: 0, Delta: L - 3600}, {Op: "connect", Addr: 0}, {Op: "restart"}, {Op: "connect", Addr: 0}},
 		{{Op: "connect", Addr: 1}, {Op: "issue", Addr: 0}, {Op: "connect", Addr: 1}, {Op: "issue", Addr: 0}, {Op: "issue", Addr: 0}, {Op: "connect", Addr: 0}, {Op: "connect", Addr: 0}},
 		{{Op: "issue", Addr: 0}, {Op: "issue", Addr: 1}, {Op: "restart"}, {Op: "connect", Addr: 1}, {Op: "restart"}, {Op: "connect", Addr: 0}, {Op: "connect", Addr: 1}},
+		// a stale temporary file of an interrupted checkpoint: before the first store, before the redeeming connect
+		{{Op: "issue", Addr: 0, StaleTmp: true}, {Op: "connect", Addr: 0}, {Op: "connect", Addr: 0}},
+		{{Op: "issue", Addr: 0}, {Op: "connect", Addr: 0, StaleTmp: true}, {Op: "restart"}, {Op: "connect", Addr: 0}},
+		{{Op: "issue", Addr: 0}, {Op: "restart", StaleTmp: true}, {Op: "connect", Addr: 0}, {Op: "issue", Addr: 0, StaleTmp: true}, {Op: "restart"}, {Op: "connect", Addr: 0}},
 		// write faults: at the redeeming connect, at the storing of a new ticket, at both
 		{{Op: "issue", Addr: 0}, {Op: "connect", Addr: 0, FaultGet: true}, {Op: "restart"}, {Op: "connect", Addr: 0}, {Op: "restart"}, {Op: "connect", Addr: 0}},
 		{{Op: "issue", Addr: 0}, {Op: "connect", Addr: 0, FaultGet: true}, {Op: "connect", Addr: 0}, {Op: "restart"}, {Op: "connect", Addr: 0}, {Op: "connect", Addr: 0}},
@@ -119,9 +129,9 @@ func (e *env) ticketCases() {
 			a := rng.Intn(3)
 			switch rng.Intn(10) {
 			case 0, 1, 2:
-				h = append(h, TOp{Op: "issue", Addr: a, FaultGet: rng.Intn(6) == 0, FaultPut: rng.Intn(6) == 0})
+				h = append(h, TOp{Op: "issue", Addr: a, FaultGet: rng.Intn(6) == 0, FaultPut: rng.Intn(6) == 0, StaleTmp: rng.Intn(5) == 0})
 			case 3, 4, 5, 6:
-				h = append(h, TOp{Op: "connect", Addr: a, FaultGet: rng.Intn(4) == 0})
+				h = append(h, TOp{Op: "connect", Addr: a, FaultGet: rng.Intn(4) == 0, StaleTmp: rng.Intn(5) == 0})
 			case 7:
 				h = append(h, TOp{Op: "restart"})
 			case 8:
@@ -232,6 +242,10 @@ func (e *env) ticketCase(c Case) {
 	for i, op := range c.Ops {
 		trace = append(trace, op.String())
 		addr := addrs[op.Addr%len(addrs)]
+		if op.StaleTmp {
+			must(os.WriteFile(file+".tmp", rng.Bytes(rng.Range(0, 200)), 0o600))
+			e.r.Count("ticket_op", "stale-tmp-present")
+		}
 		switch op.Op {
 		case "restart":
 			if !restart() {
